@@ -3,4 +3,4 @@
 cd "$(dirname "$(readlink -f "$0")")/.."; tier=${1:-quick}; shift
 ids="$@"; [ -z "$ids" ] && ids=$(python3 -c "import json;print(' '.join(c['property_id'] for c in json.load(open('MANIFEST.json'))['checks']))")
 for c in $ids; do s=$(date +%s); out=$(./check $c --tier $tier 2>&1); rc=$?; e=$(date +%s)
-  echo "$c exit=$rc wall=$((e-s))s $(echo "$out" | grep -c '^KNOWN-FINDING') known"; echo "$out" | grep -E "^VIOLATION|HARNESS-ERROR" | cut -c1-250 | head -5; done
+  echo "$c exit=$rc wall=$((e-s))s $(echo "$out" | grep -c "^KNOWN-FINDING:") known"; echo "$out" | grep -E "^VIOLATION|HARNESS-ERROR" | cut -c1-250 | head -5; done
